@@ -374,6 +374,13 @@ func cmdCheck(args []string) int {
 		violLines = append(violLines, fmt.Sprintf("VIOLATION property=%s replay=%s no-failing-input-found", *prop, p))
 	}
 	if vacuous {
+		// a genuine failed obligation is still reported as a violation; without one the run is undecided
+		if violations > 0 {
+			for _, l := range violLines {
+				fmt.Println(l)
+			}
+			return 1
+		}
 		return 2
 	}
 	// evidence
